@@ -276,6 +276,9 @@ def run_session(job, emit):
     emit(frame) is called after every step (so the parent knows which op was in flight at a crash)."""
     envs = {cid: {} for cid in job['clients']}
     pos = {cid: 0 for cid in job['clients']}
+    esnap = {}        # (cid, name) -> snapshot of the value as last seen
+    group = {}        # (cid, name) -> alias group: values that may legitimately change together (documented views, in-place ops returning self)
+    producer = {}     # (cid, name) -> (step index, op)
     layout = job.get('layout') or {}
     counters = OPS.install_cache_probes()
     for cid in job['order']:
@@ -354,6 +357,53 @@ def run_session(job, emit):
         if counters:
             frame['hits'] = {c: counters.hits[c] - hits0.get(c, 0) for c in counters.hits if counters.hits[c] != hits0.get(c, 0)}
         env[step['r']] = res
+        # ---- every value any client holds must be unchanged by this call, except the arguments documented as modified in
+        # place and values that alias them by contract (a result that *is* the in-place argument, documented views)
+        me = (cid, step['r'])
+        producer[me] = (k, step['op'])
+        argnames = {}
+        for ai, a in enumerate(step.get('a', [])):
+            if isinstance(a, dict) and '$' in a and 'i' not in a:
+                argnames[ai] = (cid, a['$'])
+        for kk, a in (step.get('kw') or {}).items():
+            if isinstance(a, dict) and '$' in a and 'i' not in a:
+                argnames[kk] = (cid, a['$'])
+        group.setdefault(me, me)
+        if not isinstance(res, Exc):
+            ra = _arrays_in(res, [])
+            for n, v in zip(names, vals):
+                if n in argnames and ra:
+                    same = res is v or (n in od.inplace and any(x is y for x in ra for y in _arrays_in(v, [])))
+                    view = step['op'] in OPS.VIEW_OPS and any(np.shares_memory(x, y) for x in ra for y in _arrays_in(v, []))
+                    if same or view:
+                        group[me] = group.get(argnames[n], argnames[n])
+        allowed = set()
+        for n in od.inplace:
+            if n in argnames:
+                g = group.get(argnames[n], argnames[n])
+                allowed.update(key for key, gg in group.items() if gg == g)
+                allowed.add(argnames[n])
+        others = []
+        for c2, e2 in envs.items():
+            for nm, val in e2.items():
+                key = (c2, nm)
+                if key == me:
+                    continue
+                try:
+                    cur = snap(val)
+                except Exception:
+                    continue
+                old_snap = esnap.get(key)
+                if old_snap is not None and cur != old_snap and key not in allowed:
+                    pk, pop = producer.get(key, (-1, '?'))
+                    others.append([c2, nm, pk, pop])
+                esnap[key] = cur
+        try:
+            esnap[me] = snap(res)
+        except Exception:
+            pass
+        if others:
+            frame['mutated_other'] = others
         try:
             frame['nf'] = ('v', 'not-compared') if od.no_compare else nf(res)
         except Exception as e:
